@@ -10,10 +10,11 @@
    implementation that keeps counting where the last numbering stopped hands out new ids every time. *)
 EXTENDS Naturals, Sequences, FiniteSets, TLC
 CONSTANTS MaxAcc, Explicit, Shapes, Weak
-VARIABLES accs,      \* accepted accessories: sequence of [aid, iids (sequence)]
+VARIABLES accs,      \* the accessories of the container: sequence of [aid, iids (sequence)]
           idCount,   \* the container's counter
-          word       \* the construction word so far: sequence of [explicit, shape, accepted]
-vars == <<accs, idCount, word>>
+          index,     \* the ids the container holds for taken (its index; an id stays taken when its accessory is removed)
+          word       \* the construction word so far: sequence of [op, explicit, shape, accepted]
+vars == <<accs, idCount, index, word>>
 Guard(g) == g \notin Weak
 
 \* ids of an accessory with services of the given characteristic counts: the information service (6 characteristics) first
@@ -26,25 +27,44 @@ IidsAfter(shape, n) == IF Guard("numbering_restarts_at_one") THEN IidsOf(shape)
                        ELSE Number(<<6>> \o shape, 1 + (n - 1) * Len(IidsOf(shape)))
 Idempotent == \A sh \in Shapes : IidsAfter(sh, 2) = IidsAfter(sh, 1)
 
-Init == accs = <<>> /\ idCount = 1 /\ word = <<>>
+Init == accs = <<>> /\ idCount = 1 /\ index = {} /\ word = <<>>
 Add(e, sh) ==
   /\ Len(word) < MaxAcc
-  /\ LET used == {accs[k].aid : k \in 1..Len(accs)}
+  /\ LET used == index
          \* an automatic id is the next one of the counter that no accessory of the container carries (guard
          \* automatic_id_skips_taken): an accessory that leaves the numbering to the container is never refused
-         free == IF Guard("automatic_id_skips_taken") THEN CHOOSE n \in idCount..(idCount + Len(accs)) : n \notin used ELSE idCount
+         free == IF Guard("automatic_id_skips_taken") THEN CHOOSE n \in idCount..(idCount + Cardinality(index)) : n \notin used ELSE idCount
          aid == IF e = 0 THEN free ELSE e
          dup == aid \in used
          take == ~dup \/ ~Guard("duplicate_rejected") IN
      /\ idCount' = IF e = 0 THEN free + 1 ELSE idCount
      /\ accs' = IF take THEN Append(accs, [aid |-> aid, iids |-> IidsOf(sh)]) ELSE accs
-     /\ word' = Append(word, [explicit |-> e, shape |-> sh, accepted |-> take])
-Next == \E e \in Explicit, sh \in Shapes : Add(e, sh)
+     /\ index' = IF take THEN index \cup {aid} ELSE index
+     /\ word' = Append(word, [op |-> "add", explicit |-> e, shape |-> sh, accepted |-> take])
+\* the application removes the k-th accessory of the container: the id stays in the index (container.go RemoveAccessory)
+RemoveMember(k) ==
+  /\ Len(word) < MaxAcc /\ k \in 1..Len(accs)
+  /\ accs' = [i \in 1..(Len(accs) - 1) |-> IF i < k THEN accs[i] ELSE accs[i + 1]]
+  /\ word' = Append(word, [op |-> "remove", explicit |-> k, shape |-> <<>>, accepted |-> TRUE])
+  /\ UNCHANGED <<idCount, index>>
+\* the application "removes" the accessory whose add was refused last (it tidies up after the error): that accessory is
+\* no member, nothing changes.  An accessory is removed by identity (guard remove_by_identity); removing by id number
+\* frees the id of the MEMBER that carries the same number.
+Refused == {i \in 1..Len(word) : word[i].op = "add" /\ ~word[i].accepted /\ word[i].explicit # 0}
+RemoveRefused ==
+  /\ Len(word) < MaxAcc /\ Refused # {}
+  /\ LET e == word[CHOOSE i \in Refused : \A j \in Refused : j <= i].explicit IN
+     index' = IF Guard("remove_by_identity") THEN index ELSE index \ {e}
+  /\ word' = Append(word, [op |-> "removerefused", explicit |-> 0, shape |-> <<>>, accepted |-> TRUE])
+  /\ UNCHANGED <<accs, idCount>>
+Next == \/ \E e \in Explicit, sh \in Shapes : Add(e, sh)
+        \/ \E k \in 1..MaxAcc : RemoveMember(k)
+        \/ RemoveRefused
 Spec == Init /\ [][Next]_vars
 
 Range(s) == {s[i] : i \in 1..Len(s)}
 UniqueAids == \A i, j \in 1..Len(accs) : i # j => accs[i].aid # accs[j].aid
 NonZero == \A i \in 1..Len(accs) : accs[i].aid # 0 /\ 0 \notin Range(accs[i].iids)
-AutomaticAccepted == \A i \in 1..Len(word) : word[i].explicit = 0 => word[i].accepted
+AutomaticAccepted == \A i \in 1..Len(word) : (word[i].op = "add" /\ word[i].explicit = 0) => word[i].accepted
 UniqueIids == \A i \in 1..Len(accs) : Cardinality(Range(accs[i].iids)) = Len(accs[i].iids)
 =======================================================================
